@@ -14,12 +14,12 @@ from ..common import Report  # noqa: E402
 from ..vocab import RANK  # noqa: E402
 from . import c08  # noqa: E402
 from .c06 import RawNonSeekable  # noqa: E402
-from .c10 import EXPECTED, SHAPES  # noqa: E402
+from .c10 import BASE_SHAPES, EXPECTED, SHAPES  # noqa: E402
 
 PROP = "C02"
 
 SINK_CALL = asm(("GLOBAL", ("vp_sink", "hit")), "MARK", "TUPLE", "REDUCE")
-INPUTS = dict(SHAPES)
+INPUTS = {k: SHAPES[k] for k in BASE_SHAPES}
 INPUTS.update({
     "unsafe-call": SINK_CALL + b".",
     "benign-nested": pickle.dumps({"a": [1, (2, 3)], "b": {"c": None}}, protocol=4),
